@@ -92,3 +92,21 @@ Definition chkA (c : caseA) : bool :=
   && cclose_lll (0x1p-36 * (cmaxabs_l idR + 0x1p-60)) (adelR s') idR
   && cclose_lll (0x1p-36 * (cmaxabs_l idP + 0x1p-60)) (adelP s') idP
   && Bool.eqb coll icoll.
+
+(* Ehrenfest / cumulative passes with electronic_integration = "linear-rk4": caseE / caseC layouts, lam/Cm = eigh(last_H) *)
+Definition chkEr (c : caseE) : bool :=
+  let '(n, m, dt, (H0, t0, F0), (H1, t1, F1), eigs, Cm, (x, v, rho, a, t), (ix, iv, irho, ia, it)) := c in
+  let '(s', _) := step_eh_rk4 FOps n m dt 0x1.999999999999ap-4 4 (mkElec H0 t0 F0) (mkElec H1 t1 F1) eigs (map (map fst) Cm) (mkT x v rho a t) in
+  fclose_l (0x1p-44 * lmaxa ix) 0 (px s') ix
+  && fclose_l (0x1p-36 * lmaxa iv) 0 (pv s') iv
+  && cclose_ll 0x1p-34 (prho s') irho
+  && Nat.eqb (pact s') ia && fclose 0 0 (ptime s') it.
+Definition chkCr (c : caseC) : bool :=
+  let '(n, m, dt, (H0, t0, F0), (H1, t1, F1), eigs, Cm, (x, v, rho, a, t), (pc, zc, zl, st), (ix, iv, irho, ia, it, ihop), (pc1, zc1, zl1)) := c in
+  let '(s', c', hp, _) := step_cum_rk4 FOps n m dt 0x1.999999999999ap-4 4 (mkElec H0 t0 F0) (mkElec H1 t1 F1) eigs (map (map fst) Cm) (mkT x v rho a t) (mkC pc zc zl st) in
+  fclose_l (0x1p-44 * lmaxa ix) 0 (px s') ix
+  && fclose_l (0x1p-36 * lmaxa iv) 0 (pv s') iv
+  && cclose_ll 0x1p-34 (prho s') irho
+  && Nat.eqb (pact s') ia && fclose 0 0 (ptime s') it
+  && fclose (0x1p-30 * (ihop + 0x1p-40)) 0x1p-30 hp ihop
+  && fclose 0x1p-30 0x1p-30 (acc c') pc1 && fclose 0 0 (zeta c') zc1 && fclose_l 0 0 (zlist c') zl1.
